@@ -428,5 +428,37 @@ def run(ctx):
                   "rx_float_range(get_minimum().0, get_maximum().0, !get_minimum().1, !get_maximum().1)",
                   "json_number passes %s to rx_float_range (expected %s): bounds or inclusiveness are swapped" % (got, want), site=jn.where(gen[0]))
 
+    # ------------------------------------------------------------------ R6 multipleOf is never dropped
+    # The range regex alone admits every literal inside the bounds; multipleOf is enforced only by intersecting it with
+    # signed_multiple_of_ast.  So on every path of json_number / json_int on which `multiple_of` is Some, the returned
+    # AST passes through that call.  (For integers a divisor of exactly 1 is vacuous: a bypass under `coef == 1` is
+    # accepted there, and only there.)
+    for fn_b, allow_unit in ((jn, False), (ji, True)):
+        nm = fn_b.id.rsplit("::", 1)[1]
+        some_edges = []
+        for sb, e, targets, otherwise in fn_b.switch_edges():
+            if e[0] == "discr" and "multiple_of" in repr(e[1]):
+                tg = [(sb, t) for v, t in targets if int(v) == 1]
+                if not tg and all(int(v) == 0 for v, _ in targets):
+                    tg = [(sb, otherwise)]
+                some_edges += tg
+        calls = fn_b.call_blocks(JC.rsplit("::", 1)[0] + "::signed_multiple_of_ast")
+        rets = [bi for bi in fn_b.live_blocks() if fn_b.blocks[bi]["term"]["t"] == "return"]
+        if not some_edges or not calls:
+            ctx.violation("C08-R6", "multipleOf:%s:anchor" % nm, "%s no longer tests `multiple_of` / calls signed_multiple_of_ast: multipleOf is not enforced" % fn_b.id, site=fn_b.where())
+            continue
+        cut = []
+        if allow_unit:
+            cut = L.guard_edges(fn_b, lambda e: e[0] == "bin" and e[1] == "Eq" and "coef" in repr(e) and any(x[0] == "const" and x[1] == 1 for x in e[2:4]), True)
+        bypass = []
+        for (sb, t) in some_edges:
+            r = fn_b.reachable(t, cut_blocks=calls, cut_edges=cut)
+            bypass += [x for x in rets if x in r]
+        ctx.check(not bypass, "C08-R6", "multipleOf:%s:never-dropped" % nm,
+                  "every path on which multiple_of is Some intersects the range regex with signed_multiple_of_ast",
+                  "%s can return the plain range regex although `multipleOf` is set (a path from the Some arm reaches the return without "
+                  "signed_multiple_of_ast%s): literals that are not multiples are admitted" % (fn_b.id, "" if allow_unit else "; for `number` even a divisor of 1 excludes fractions"),
+                  site=fn_b.where(some_edges[0][0]))
+
     # ------------------------------------------------------------------ R3 overflow census
     c20.overflow_census(ctx, "C08-R3")
